@@ -6,6 +6,7 @@ import (
 	"errors"
 	"fmt"
 	"runtime"
+	"time"
 	"sort"
 
 	"github.com/onflow/atree"
@@ -38,9 +39,24 @@ func (w *World) execCommit(st *Step) *Violation {
 				n = 1
 			}
 			if attempts <= n {
-				plan = &FaultPlan{FailWriteAt: map[int]bool{}}
+				plan = &FaultPlan{FailWriteAt: map[int]bool{}, FailWriteID: map[RegID]bool{}}
 				for _, k := range st.Fault.WriteAt {
 					plan.FailWriteAt[k] = true
+				}
+				if len(st.Fault.WriteIdx) > 0 {
+					stored, removed := w.PendingIDs()
+					var owned []RegID
+					for _, id := range append(stored, removed...) {
+						if id.Owner != 0 {
+							owned = append(owned, id)
+						}
+					}
+					sort.Slice(owned, func(i, j int) bool { return regLess(owned[i], owned[j]) })
+					for _, k := range st.Fault.WriteIdx {
+						if len(owned) > 0 {
+							plan.FailWriteID[owned[k%len(owned)]] = true
+						}
+					}
 				}
 			}
 		}
@@ -54,7 +70,22 @@ func (w *World) execCommit(st *Step) *Violation {
 		w.Ledger.SetPlan(plan)
 		logStart := len(w.Ledger.Log)
 		firedBefore := w.Ledger.FaultsFired["ledger.write-error"]
+		if w.BeforeCommitAttempt != nil {
+			w.BeforeCommitAttempt(w, st, attempts)
+		}
+		g0 := runtime.NumGoroutine()
 		err := w.commitOnce(st.Flavour, st.Workers)
+		if !inBubble {
+			for i := 0; i < 200 && runtime.NumGoroutine() > g0; i++ {
+				runtime.Gosched()
+				if i > 50 {
+					time.Sleep(50 * time.Microsecond)
+				}
+			}
+			if g := runtime.NumGoroutine(); g > g0 {
+				return w.viol("live.goroutines", "commit (%s, %d workers) left %d goroutine(s) running after it returned", st.Flavour, st.Workers, g-g0)
+			}
+		}
 		w.commitJournal = nil
 		w.Ledger.SetPlan(nil)
 		w.Ledger.BeginPhase("op", false)
@@ -211,3 +242,6 @@ func (w *World) PendingIDs() (stored, removed []RegID) {
 	sort.Slice(removed, func(i, j int) bool { return regLess(removed[i], removed[j]) })
 	return
 }
+
+// inBubble is set while a run executes inside a testing/synctest bubble (goroutine accounting differs there).
+var inBubble bool
